@@ -4,7 +4,10 @@
 EXTENDS TraceBase, CornerTable
 Fn(s) == [c \in 0..(Len(s) - 1) |-> s[c + 1]]
 AsCt(r) == [opp |-> Fn(r.opp), m |-> Fn(r.ctv), vc |-> r.vc, par |-> r.par]
-CheckA(r) == r.e = "CT" => (r.ok /\ Len(r.opp) = Len(r.f) /\ Len(r.ctv) = Len(r.f) /\ CornerTableOK(r.f, AsCt(r)))
+\* the attribute connectivity derived from the table (MeshAttributeCornerTable over a seam-free attribute): it is built, every corner of a
+\* non-degenerate face has an attribute vertex, and the vertices in use are below the reported count
+AttOK(r) == r.att_ok /\ r.att_inv = 0 /\ r.att_maxv < r.att_nv
+CheckA(r) == r.e = "CT" => (r.ok /\ Len(r.opp) = Len(r.f) /\ Len(r.ctv) = Len(r.f) /\ CornerTableOK(r.f, AsCt(r)) /\ AttOK(r))
 CheckB(r) == (r.e = "CT" /\ r.ok /\ Len(r.f) <= 36) =>
                 LET b == Create(r.f) IN
                 Drift(Fn(r.opp) = b.opp /\ Fn(r.ctv) = b.m /\ r.vc = b.vc /\ r.par = b.par /\ r.iso = b.iso /\ r.deg = b.deg, "CornerTable::Create")
